@@ -161,14 +161,14 @@ func runC14() *RunResult {
 		cfg.Funcs = uint32(rn(1<<nFuncs)) | 1<<uint(rn(nFuncs))
 	}
 	// path: prefix of every step kind (no functions inside), then 1-3 distinct functions
-	pg := genPath(0, trap, 4, 0)
+	doc := newDoc(dg.doc(trap))
+	pg := genPathFor(doc.Val, 0, trap, 4, 0)
 	fl := distinctFuncs(cfg.Funcs, 1+rn(3))
 	text := pg.Prefix
 	for _, f := range fl {
 		text += "." + funcNames[f] + "()"
 	}
 	p := &PathSpec{Text: text, Prefix: pg.Prefix, Funcs: fl, SingleValued: pg.SingleValued}
-	doc := newDoc(dg.doc(trap))
 	w.docs = []*Doc{doc}
 	res0 := &RunResult{Probes: map[string]int{}, Faults: map[string]int{}}
 
